@@ -1,32 +1,57 @@
-(* C04 — Dagger and spiders give the hypergraph-category (Frobenius) structure. (dagger-reverses-composition and spider fusion: Proofs/C04bThm.v when present; otherwise correspondence + Iso checker)
+(* C04 — Dagger and spiders give the hypergraph-category (Frobenius) structure.
    Property theorems only: each statement is spelled out and closed by [exact] of a lemma proved in Proofs/. *)
-From OHG Require Import Spec.Plain Proofs.C04Thm.
+From OHG Require Import Spec.Plain Proofs.C04Thm Proofs.C04bThm Proofs.C01Thm.
 
 Theorem C04_dagger_swaps : forall (O A : Type) (f : ohg O A), abs (ohg_dagger f) = swap_io (abs f) /\ o_h (ohg_dagger f) = o_h f.
-Proof. exact C04Thm.C04_dagger_swaps. Qed.
+Proof. exact (@C04Thm.C04_dagger_swaps). Qed.
 
 Theorem C04_dagger_involutive : forall (O A : Type) (f : ohg O A), ohg_dagger (ohg_dagger f) = f.
-Proof. exact C04Thm.C04_dagger_involutive. Qed.
+Proof. exact (@C04Thm.C04_dagger_involutive). Qed.
 
 Theorem C04_dagger_wf : forall (O A : Type) (f : ohg O A), wf_ohg f -> wf_ohg (ohg_dagger f).
-Proof. exact C04Thm.C04_dagger_wf. Qed.
+Proof. exact (@C04Thm.C04_dagger_wf). Qed.
 
 Theorem C04_dagger_types : forall (O A : Type) (f : ohg O A),
        src_type (abs (ohg_dagger f)) = tgt_type (abs f) /\ tgt_type (abs (ohg_dagger f)) = src_type (abs f).
-Proof. exact C04Thm.C04_dagger_types. Qed.
+Proof. exact (@C04Thm.C04_dagger_types). Qed.
 
 Theorem C04_dagger_tensor : forall (O A : Type) (f g : ohg O A),
        ohg_tensor (ohg_dagger f) (ohg_dagger g) = rmap (ohg_dagger (A:=A)) (ohg_tensor f g).
-Proof. exact C04Thm.C04_dagger_tensor. Qed.
+Proof. exact (@C04Thm.C04_dagger_tensor). Qed.
+
+Theorem C04_dagger_compose : forall B : Backend,
+       BackendOK B ->
+       forall (O A : Type) (eqO : O -> O -> bool),
+       (forall x y : O, eqO x y = true <-> x = y) ->
+       forall f g h : ohg O A,
+       wf_ohg f ->
+       wf_ohg g ->
+       ohg_compose B eqO f g = Ok (Some h) ->
+       exists k : ohg O A,
+         ohg_compose B eqO (ohg_dagger g) (ohg_dagger f) = Ok (Some k) /\ Iso (abs (ohg_dagger h)) (abs k).
+Proof. exact (@C04bThm.C04_dagger_compose). Qed.
+
+Theorem C04_dagger_compose_wf : forall B : Backend,
+       BackendOK B ->
+       forall (O A : Type) (eqO : O -> O -> bool),
+       (forall x y : O, eqO x y = true <-> x = y) ->
+       forall f g h : ohg O A,
+       wf_ohg f ->
+       wf_ohg g ->
+       ohg_compose B eqO f g = Ok (Some h) ->
+       exists k : ohg O A,
+         ohg_compose B eqO (ohg_dagger g) (ohg_dagger f) = Ok (Some k) /\
+         wf_ohg k /\ wf_ohg (ohg_dagger h) /\ Iso (abs (ohg_dagger h)) (abs k).
+Proof. exact (@C04bThm.C04_dagger_compose_wf). Qed.
 
 Theorem C04_spider_iff : forall (O A : Type) (s t : ff) (w : list O) (h : ohg O A),
        ohg_spider A s t w = Some h <->
        target s = length w /\ target t = length w /\ h = {| o_s := s; o_t := t; o_h := hg_discrete A w |}.
-Proof. exact C04Thm.C04_spider_iff. Qed.
+Proof. exact (@C04Thm.C04_spider_iff). Qed.
 
 Theorem C04_spider_none_iff : forall (O A : Type) (s t : ff) (w : list O),
        ohg_spider A s t w = None <-> target s <> length w \/ target t <> length w.
-Proof. exact C04Thm.C04_spider_none_iff. Qed.
+Proof. exact (@C04Thm.C04_spider_none_iff). Qed.
 
 Theorem C04_spider_discrete : forall (O A : Type) (s t : ff) (w : list O) (h : ohg O A),
        ohg_spider A s t w = Some h ->
@@ -34,60 +59,138 @@ Theorem C04_spider_discrete : forall (O A : Type) (s t : ff) (w : list O) (h : o
        h_x (o_h h) = [] /\
        abs h = {| p_nodes := w; p_edges := []; p_ins := table s; p_outs := table t |} /\
        (wf_ff s -> wf_ff t -> wf_ohg h).
-Proof. exact C04Thm.C04_spider_discrete. Qed.
+Proof. exact (@C04Thm.C04_spider_discrete). Qed.
 
 Theorem C04_half_spider : forall (O A : Type) (s : ff) (w : list O),
        ohg_half_spider A s w = Ok (ohg_spider A s (ff_id (target s)) w).
-Proof. exact C04Thm.C04_half_spider. Qed.
+Proof. exact (@C04Thm.C04_half_spider). Qed.
 
 Theorem C04_identity_is_spider : forall (O A : Type) (w : list O),
        exists h : ohg O A,
          ohg_identity A w = Ok h /\
          ohg_spider A (ff_id (length w)) (ff_id (length w)) w = Some h /\
          wf_ohg h /\ src_type (abs h) = map Some w /\ tgt_type (abs h) = map Some w.
-Proof. exact C04Thm.C04_identity_is_spider. Qed.
+Proof. exact (@C04Thm.C04_identity_is_spider). Qed.
 
 Theorem C04_twist_is_spider : forall (O A : Type) (a b : list O),
        exists h : ohg O A,
          ohg_twist A a b = Ok h /\
          ohg_spider A (ff_tw (length a) (length b)) (ff_id (length a + length b)) (b ++ a) = Some h /\
          wf_ohg h /\ src_type (abs h) = map Some (a ++ b) /\ tgt_type (abs h) = map Some (b ++ a).
-Proof. exact C04Thm.C04_twist_is_spider. Qed.
+Proof. exact (@C04Thm.C04_twist_is_spider). Qed.
+
+Theorem C04_spider_fusion : forall B : Backend,
+       BackendOK B ->
+       forall (O A : Type) (eqO : O -> O -> bool),
+       (forall x y : O, eqO x y = true <-> x = y) ->
+       forall (s t s' t' : ff) (w w' : list O),
+       wf_ff s ->
+       wf_ff t ->
+       wf_ff s' ->
+       wf_ff t' ->
+       target s = length w ->
+       target t = length w ->
+       target s' = length w' ->
+       target t' = length w' ->
+       map (nth_error w) (table t) = map (nth_error w') (table s') ->
+       exists (f g h : ohg O A) (q : nat -> nat),
+         ohg_spider A s t w = Some f /\
+         ohg_spider A s' t' w' = Some g /\
+         ohg_compose B eqO f g = Ok (Some h) /\
+         wf_ohg h /\
+         hg_is_discrete (o_h h) = true /\
+         h_x (o_h h) = [] /\
+         ohg_spider A (o_s h) (o_t h) (h_w (o_h h)) = Some h /\
+         (forall i : nat, i < length w + length w' -> q i < length (h_w (o_h h))) /\
+         (forall j : nat, j < length (h_w (o_h h)) -> exists i : nat, i < length w + length w' /\ q i = j) /\
+         (forall i j : nat,
+          i < length w + length w' ->
+          j < length w + length w' ->
+          q i = q j <-> conn (combine (table t) (map (fun x : nat => x + length w) (table s'))) i j) /\
+         table (o_s h) = map q (table s) /\
+         table (o_t h) = map (fun x : nat => q (x + length w)) (table t') /\
+         (forall i : nat, i < length w + length w' -> nth_error (h_w (o_h h)) (q i) = nth_error (w ++ w') i).
+Proof. exact (@C04bThm.C04_spider_fusion). Qed.
+
+Theorem C04_spider_fusion_lax : forall B : Backend,
+       BackendOK B ->
+       forall (O A : Type) (eqO : O -> O -> bool),
+       (forall x y : O, eqO x y = true <-> x = y) ->
+       forall (s t s' t' : ff) (w w' : list O),
+       wf_ff s ->
+       wf_ff t ->
+       wf_ff s' ->
+       wf_ff t' ->
+       target s = length w ->
+       target t = length w ->
+       target s' = length w' ->
+       target t' = length w' ->
+       map (nth_error w) (table t) = map (nth_error w') (table s') ->
+       exists (F G C C' : lohg O A) (q : ff),
+         lohg_spider A s t w = Some F /\
+         lohg_spider A s' t' w' = Some G /\
+         lohg_compose eqO F G = Ok (Some C) /\
+         C = lax_spider_compose A s t s' t' w w' /\
+         pending C = combine (table t) (map (fun x : nat => x + length w) (table s')) /\
+         lohg_quotient B eqO C = Ok (C', inl q) /\
+         l_edges (lo_h C') = [] /\
+         l_adj (lo_h C') = [] /\
+         l_q (lo_h C') = ([], []) /\
+         C09Thm.lwf C' /\
+         IsQuot (labs C) (C09Thm.app q) (labs C') /\
+         (forall i j : nat,
+          i < length w + length w' ->
+          j < length w + length w' ->
+          C09Thm.app q i = C09Thm.app q j <->
+          conn (combine (table t) (map (fun x : nat => x + length w) (table s'))) i j) /\
+         lo_sources C' = map (C09Thm.app q) (table s) /\
+         lo_targets C' = map (fun x : nat => C09Thm.app q (x + length w)) (table t') /\
+         (forall f g h : ohg O A,
+          ohg_spider A s t w = Some f ->
+          ohg_spider A s' t' w' = Some g -> ohg_compose B eqO f g = Ok (Some h) -> NIso (abs h) (labs C')).
+Proof. exact (@C04bThm.C04_spider_fusion_lax). Qed.
 
 Theorem C04_lax_dagger_swaps : forall (O A : Type) (lf : lohg O A),
        labs (lohg_dagger lf) = swap_io (labs lf) /\
        lo_h (lohg_dagger lf) = lo_h lf /\ pending (lohg_dagger lf) = pending lf.
-Proof. exact C04Thm.C04_lax_dagger_swaps. Qed.
+Proof. exact (@C04Thm.C04_lax_dagger_swaps). Qed.
 
 Theorem C04_lax_dagger_involutive : forall (O A : Type) (lf : lohg O A), lohg_dagger (lohg_dagger lf) = lf.
-Proof. exact C04Thm.C04_lax_dagger_involutive. Qed.
+Proof. exact (@C04Thm.C04_lax_dagger_involutive). Qed.
 
 Theorem C04_lax_dagger_tensor : forall (O A : Type) (lf lg : lohg O A),
        lohg_tensor (lohg_dagger lf) (lohg_dagger lg) = lohg_dagger (lohg_tensor lf lg).
-Proof. exact C04Thm.C04_lax_dagger_tensor. Qed.
+Proof. exact (@C04Thm.C04_lax_dagger_tensor). Qed.
 
 Theorem C04_lax_spider_iff : forall (O A : Type) (s t : ff) (w : list O) (lh : lohg O A),
        lohg_spider A s t w = Some lh <->
        target s = target t /\
        target s = length w /\
        lh = {| lo_sources := table s; lo_targets := table t; lo_h := lhg_discrete A w |}.
-Proof. exact C04Thm.C04_lax_spider_iff. Qed.
+Proof. exact (@C04Thm.C04_lax_spider_iff). Qed.
 
 Theorem C04_spider_strict_lax_agree : forall (O A : Type) (s t : ff) (w : list O) (h : ohg O A) (lh : lohg O A),
        ohg_spider A s t w = Some h -> lohg_spider A s t w = Some lh -> abs h = labs lh.
-Proof. exact C04Thm.C04_spider_strict_lax_agree. Qed.
+Proof. exact (@C04Thm.C04_spider_strict_lax_agree). Qed.
+
+Example C04_nonvacuous : wf_ohg C01Thm.ex_f /\ wf_ohg C01Thm.ex_g.
+Proof. exact (conj C01Thm.ex_f_wf C01Thm.ex_g_wf). Qed.
 
 Print Assumptions C04_dagger_swaps.
 Print Assumptions C04_dagger_involutive.
 Print Assumptions C04_dagger_wf.
 Print Assumptions C04_dagger_types.
 Print Assumptions C04_dagger_tensor.
+Print Assumptions C04_dagger_compose.
+Print Assumptions C04_dagger_compose_wf.
 Print Assumptions C04_spider_iff.
 Print Assumptions C04_spider_none_iff.
 Print Assumptions C04_spider_discrete.
 Print Assumptions C04_half_spider.
 Print Assumptions C04_identity_is_spider.
 Print Assumptions C04_twist_is_spider.
+Print Assumptions C04_spider_fusion.
+Print Assumptions C04_spider_fusion_lax.
 Print Assumptions C04_lax_dagger_swaps.
 Print Assumptions C04_lax_dagger_involutive.
 Print Assumptions C04_lax_dagger_tensor.
